@@ -1949,6 +1949,45 @@ func runSiblingRef(c *core.Ctx) {
 		}
 		c.Pass(key, src.pos, "fills %v%s", got, map[bool]string{true: " with config fallback", false: ""}[kind == "img"])
 	}
+	// the media type of the referrers entry is the media type the manifest is recorded under in the index (the
+	// declared or detected one the handler validated), not the optional field of the body: the collector and the
+	// manifest GET decide by it whether the entry is a manifest to be expanded
+	if ph.mtVal != nil {
+		recorded := map[ssa.Value]bool{}
+		for _, o := range an.Origins(ph.mtVal) {
+			recorded[o] = true
+		}
+		recorded[an.Strip(ph.mtVal)] = true
+		c.SetTags("mediatype")
+		for i, src := range srcs {
+			vals := src.stores["MediaType"]
+			if len(vals) == 0 {
+				continue
+			}
+			ok := true
+			for _, v := range vals {
+				match := recorded[an.Strip(v)]
+				for _, o := range an.Origins(v) {
+					if recorded[o] {
+						match = true
+					}
+				}
+				// inside a sub-handler: the parameter that receives the recorded type
+				if p, isP := an.Origin(v).(*ssa.Parameter); isP {
+					for _, sb := range ph.subs {
+						if sb.view.mtVal == ssa.Value(p) {
+							match = true
+						}
+					}
+				}
+				if !match {
+					ok = false
+				}
+			}
+			c.Check(ok, fmt.Sprintf("media-type:%s#%d", kn(c.P.FuncName(ph.hs.fn)), i+1), src.pos, "the referrers entry built at %s carries the media type the manifest is recorded under in the index: %v — with the body's optional mediaType field instead, an artifact pushed without that field is listed with an empty type: the collector treats it as an opaque blob and sweeps its config and layers although its subject is retained", c.P.Pos(src.pos), ok)
+		}
+		c.SetTags()
+	}
 }
 
 func init() {
@@ -2032,12 +2071,169 @@ func init() {
 					}
 					return []st{s}
 				}})
+			// the digest of the descriptor handed in is the manifest's identity under the algorithm it was pushed with: it is
+			// only ever filled in when it is empty (a store into Digest lies on the ‘Digest == ""’ edge of the same descriptor)
+			badDigest := token.NoPos
+			an.Instrs(fn, func(in ssa.Instruction) {
+				x, ok := in.(*ssa.Store)
+				if !ok {
+					return
+				}
+				fa, ok := x.Addr.(*ssa.FieldAddr)
+				if !ok {
+					return
+				}
+				n := an.NamedOf(an.Deref(fa.X.Type()))
+				if n == nil || n.Obj().Name() != "Descriptor" || an.Deref(fa.X.Type()).Underlying().(*types.Struct).Field(fa.Field).Name() != "Digest" {
+					return
+				}
+				guarded := false
+				for _, g := range an.GuardingEdges(x.Block()) {
+					a, b, op, isCmp := an.CmpTest(g.If())
+					if !isCmp {
+						continue
+					}
+					if s0, isS := an.ConstString(b); !isS || s0 != "" {
+						continue
+					}
+					ar, ap := accessPath(an.Strip(a))
+					sr, sp := accessPath(fa)
+					if ar == sr && strings.Join(ap, ".") == strings.Join(sp, ".") && len(ap) >= 1 && ap[len(ap)-1] == "Digest" && ((op == token.EQL && g.Succ == 0) || (op == token.NEQ && g.Succ == 1)) {
+						guarded = true
+					}
+				}
+				if !guarded && badDigest == token.NoPos {
+					badDigest = x.Pos()
+				}
+			})
+			c.Check(badDigest == token.NoPos, "kept:Digest", fn.Pos(), "%s replaces the digest of the descriptor it was given only when that digest is empty: %v — a manifest pushed under another algorithm is recorded in its subject's referrers list under that digest; recomputing it with the default algorithm makes the delete look for an entry that is not there, and the deleted artifact stays listed", c.P.FuncName(fn), badDigest == token.NoPos)
 			c.Check(badSize == token.NoPos, "derived:Size", fn.Pos(), "every successful return of %s has set Size = len(raw): %v", c.P.FuncName(fn), badSize == token.NoPos)
 			c.Check(badAnnot == token.NoPos, "derived:Annotations", fn.Pos(), "every successful return of %s has set Annotations from the parsed manifest unconditionally: %v — otherwise annotations of the descriptor passed in (a stale fallback entry) survive, the entry validates against itself and the referrers API serves annotations the manifest never declared", c.P.FuncName(fn), badAnnot == token.NoPos)
 		}})
 }
 
 func init() {
+	register(&Rule{ID: "TS-RMDESC", Floor: 1,
+		Doc: "every descriptor a handler passes to Repo.IndexRemove identifies the entry by digest: it is the result of an index lookup (GetDesc / GetByAnnotation), or a literal whose Digest is set — a descriptor that carries only a tag makes the index drop every entry of that tag (the removal's ‘no digest’ arm), so deleting a manifest's only tag would drop the manifest itself",
+		Run: func(c *core.Ctx) {
+			r := requireRoles(c)
+			if r == nil {
+				return
+			}
+			n := 0
+			for _, fn := range serverFuncs(c) {
+				k := 0
+				an.Calls(fn, func(call ssa.CallInstruction) {
+					if !r.IsAPI(call, "Repo", "IndexRemove") {
+						return
+					}
+					_, args := an.CallArgs(call)
+					if len(args) == 0 {
+						return
+					}
+					n++
+					k++
+					key := fmt.Sprintf("remove:%s#%d", kn(c.P.FuncName(fn)), k)
+					bad := ""
+					seen := map[ssa.Value]bool{}
+					var walk func(v ssa.Value, d int)
+					walk = func(v ssa.Value, d int) {
+						v = an.Strip(v)
+						if v == nil || seen[v] || d > 10 || bad != "" {
+							return
+						}
+						seen[v] = true
+						switch x := v.(type) {
+						case *ssa.Phi:
+							for _, e := range x.Edges {
+								walk(e, d+1)
+							}
+						case *ssa.Extract:
+							walk(x.Tuple, d+1)
+						case *ssa.Call:
+							if an.IsMethod(x, r.TypesPath, "Index", "GetDesc") || an.IsMethod(x, r.TypesPath, "Index", "GetByAnnotation") {
+								return
+							}
+							if x.Call.StaticCallee() != nil && core.FuncPkgPath(x.Call.StaticCallee()) == r.TypesPath {
+								return // a function of the types package deriving a descriptor (checked by its own rules)
+							}
+							bad = fmt.Sprintf("the descriptor comes from %s", describeValue(c, x))
+						case *ssa.Parameter:
+							// a helper: judged at its callers' IndexRemove-free hand-over is out of scope here
+						case *ssa.UnOp:
+							if x.Op != token.MUL {
+								return
+							}
+							if al, ok := x.X.(*ssa.Alloc); ok {
+								// a variable assigned as a whole (from a lookup, or from different literals on different branches):
+								// each assigned value is judged on its own
+								if sts, unk := an.CellStores(al); !unk && len(sts) > 0 {
+									for _, st := range sts {
+										if k, isZero := st.Val.(*ssa.Const); isZero && k.Value == nil {
+											// a composite literal written into the variable in place: the zero value, then the fields it sets, in
+											// the same block
+											hasDigest := false
+											after := false
+											for _, in := range st.Block().Instrs {
+												if in == ssa.Instruction(st) {
+													after = true
+													continue
+												}
+												if !after {
+													continue
+												}
+												fs, ok := in.(*ssa.Store)
+												if !ok {
+													continue
+												}
+												if fs.Addr == ssa.Value(al) {
+													break // the next assignment of the variable
+												}
+												if fa, ok := fs.Addr.(*ssa.FieldAddr); ok && fa.X == ssa.Value(al) {
+													if stt, ok := an.Deref(al.Type()).Underlying().(*types.Struct); ok && stt.Field(fa.Field).Name() == "Digest" {
+														hasDigest = true
+													}
+												}
+											}
+											if !hasDigest && bad == "" {
+												bad = fmt.Sprintf("the descriptor literal assigned at %s sets no Digest", c.P.Pos(st.Pos()))
+											}
+											continue
+										}
+										walk(st.Val, d+1)
+									}
+									return
+								}
+								// a literal filled field by field
+								ss := map[string][]ssa.Value{}
+								if al.Referrers() != nil {
+									stt, _ := an.Deref(al.Type()).Underlying().(*types.Struct)
+									for _, ref := range *al.Referrers() {
+										if fa, ok := ref.(*ssa.FieldAddr); ok && stt != nil && fa.Referrers() != nil {
+											for _, rr := range *fa.Referrers() {
+												if st, ok := rr.(*ssa.Store); ok && st.Addr == ssa.Value(fa) {
+													ss[stt.Field(fa.Field).Name()] = append(ss[stt.Field(fa.Field).Name()], st.Val)
+												}
+											}
+										}
+									}
+								}
+								if len(ss["Digest"]) == 0 {
+									bad = fmt.Sprintf("the descriptor literal at %s sets no Digest", c.P.Pos(al.Pos()))
+								}
+								return
+							}
+							walk(x.X, d+1)
+						}
+					}
+					walk(args[0], 0)
+					c.Check(bad == "", key, call.Pos(), "the descriptor passed to IndexRemove at %s identifies the entry by digest%s", c.P.Pos(call.Pos()), map[bool]string{true: "", false: ": " + bad + " — the index then removes every entry of the tag instead of untagging one: deleting a manifest's only tag drops the manifest, which stops being addressable by digest and becomes garbage"}[bad == ""])
+				})
+			}
+			if n == 0 {
+				c.Unresolved("index-remove", "no handler calls Repo.IndexRemove")
+			}
+		}})
 	register(&Rule{ID: "TS-DETECT", Floor: 1,
 		Doc: "the push handler compares the declared media type with the kind the detector finds in the body, and skips the comparison when the detector answers \"\"; hence the detector may answer \"\" only on paths on which every field test it made found the field absent (or the body did not parse) — a path that saw a kind marker present and still answers \"\" lets such a body through under any declared type",
 		Run: func(c *core.Ctx) {
